@@ -124,7 +124,8 @@ def account_design(chk: Check, prop: str, runs: list[tuple[str, core.TlcResult, 
 
 COMPONENTS = {
     "R": {"type": "object", "properties": {"x": {"type": "string"}, "n": {"type": "integer"}}},
-    "M": {"type": "object", "properties": {"a": {"type": "string"}, "b": {"type": "integer"}}, "required": ["a"]},
+    # every multi-content operation has its own JSON body model (M<oid>)
+    **{f"M{i}": {"type": "object", "properties": {"a": {"type": "string"}, f"field_{i}": {"type": "integer"}}, "required": ["a"]} for i in range(1, 9)},
     "UploadM": {"type": "object", "properties": {"file": {"type": "string", "format": "binary"}}},
 }
 
@@ -149,7 +150,7 @@ def operation_node(op: dict) -> dict:
     kind = op["kind"]
     resp: dict[str, Any] = {"description": "ok", "content": {"application/json": {"schema": _ref("R")}}}
     if kind == "multi":
-        node["requestBody"] = {"required": True, "content": {"application/json": {"schema": _ref("M")}, "multipart/form-data": {"schema": _ref("UploadM")}}}
+        node["requestBody"] = {"required": True, "content": {"application/json": {"schema": _ref(f"M{op['oid']}")}, "multipart/form-data": {"schema": _ref("UploadM")}}}
     elif kind == "sse":
         resp = {"description": "events", "content": {"text/event-stream": {"schema": _ref("R")}}}
     elif kind == "ndjson":
@@ -172,6 +173,8 @@ def operation_node(op: dict) -> dict:
     if params:
         node["parameters"] = params
     node["responses"] = {"200": resp}
+    if kind == "mixed":  # the primary response is JSON; a secondary success response streams
+        node["responses"]["206"] = {"description": "partial raw download", "content": {"application/octet-stream": {"schema": {"type": "string", "format": "binary"}}}}
     return node
 
 
@@ -823,10 +826,12 @@ def rule_text(tier: str) -> str:
         "request / close / config alone and second} x operationId shape {absent, unique, duplicate after sanitising, pre-suffixed family get / "
         "Get / get_2 / GET, FastAPI style (collapsed and as FastAPI writes it)} x strategy {operationId, clean, path} x rendering {json, yaml, "
         "yaml with bare int status keys} x kind per operation {plain, two request content types (@overload), sse, ndjson, octet (async "
-        "generators), 6 optional parameters, 8 long-named parameters}.  Deterministic stratified selection, exhaustive inside each stratum: A "
+        "generators), 6 optional parameters, 8 long-named parameters, 200 JSON + 206 octet-stream}; every two-content-type operation has its own JSON body model.  Deterministic stratified selection, exhaustive inside each stratum: A "
         "one operation x every tag list x id shapes x strategies; B every pair of tag lists; C triples with (t1+t2+t3) % m = 0; D four "
         "operations with an orthogonal array over tag lists; E every id shape x strategy x 5 tag patterns; F every pair (thorough: triple) of "
-        "kinds; G a slice rendered with bare status keys.  Every document is generated on the force path (the only path that writes output) "
+        "kinds; G a slice rendered with bare status keys; H multi-tag x colliding ids; P spellings of one tag that differ by punctuation "
+        "other than space / hyphen / underscore (Billing/Invoices vs billing-invoices, v1.users, R&D, ops:admin) alone, in every ordered pair "
+        "and in triples; V one path item carrying all eight OpenAPI 3 verbs.  Every document is generated on the force path (the only path that writes output) "
         "and observed once; non-trivial = judged document with >= 2 (operation, tag class) pairs (C07) / with mock methods compared (C13)"
     )
 
